@@ -23,7 +23,23 @@ LEVEL = "model_checking"
 MODULE = "Bm25StructTrace"
 CFG = "Bm25StructTrace.cfg"
 CFG_STRICT = "Bm25StructTrace_strict.cfg"
-DEFAULT_AVOID = "dismaxwand,notphrase"
+
+
+def fixed_findings():
+    """ids of C12 findings that were repaired in /repo: a `fixed:` line of known_findings.json for property C12
+    that mentions the id; C12_ASSUME_FIXED=F17,F19 forces the switch (to test the fixed mode on a scratch tree)"""
+    out = set(x for x in os.environ.get("C12_ASSUME_FIXED", "").replace(" ", "").split(",") if x)
+    for line in vlib.load_known().get("fixed", []):
+        if re.search(r"property=[\w,/ ]*\bC12\b", line):
+            out |= set(re.findall(r"\b(F17|F19)\b", line))
+    return out
+
+
+FIXED = fixed_findings()
+# F17 repaired: boosted explain is compared bit-exactly everywhere (strict judge); F19 repaired: top-level dis-max
+# queries go through TopDocs like every other query
+DEFAULT_CFG = CFG_STRICT if "F17" in FIXED else CFG
+DEFAULT_AVOID = "" if "F19" in FIXED else "dismaxwand"
 
 BOOSTS = [2.0, 0.5, 1.5, 3.7, 0.1, 1.0, 10.0, 0.333]
 CONSTS = [1.0, 0.42, 7.5, 2.0]
@@ -41,11 +57,6 @@ F17_TEXT = ("F17 boosted explain differs from score: explain().value() of a boos
 DISMAX_TEXT = ("dismax TopDocs score is the sum of the disjuncts: a top-level DisjunctionMaxQuery whose disjuncts are term "
                "queries is scored by block-WAND in TopDocs (for_each_pruning), which adds the disjunct scores and ignores "
                "the dis-max combiner / tie breaker; the scoring collector and explain() return max + tie * others")
-EXPLAIN_SEEK_TEXT = ("explain panics on a backward seek: explain() of a boolean / dis-max query descends into a clause that "
-                     "does not match the document and seeks that clause's fresh scorer to a target below its current doc "
-                     "(only TermWeight::explain guards this); a debug assertion of DocSet::seek fails")
-NOTPHRASE_TEXT = ("must-not phrase panics in search: Exclude probes the excluded PhraseScorer with seek_danger(target < doc()), "
-                  "which PhraseScorer::seek_danger refuses with a debug assertion")
 
 
 def why_of(r):
@@ -61,17 +72,13 @@ def rejected_line(r):
 def classify(ev, why):
     """-> (class key, violation text)"""
     if ev.get("ev") == "panic":
-        if ev.get("stage") == "explain":
-            return "explain-seek", EXPLAIN_SEEK_TEXT
-        if ev.get("stage") in ("collector", "topdocs") and "should be greater than or equal to doc" in ev.get("msg", ""):
-            return "notphrase", NOTPHRASE_TEXT
         return "panic:" + ev.get("stage", ""), f"tantivy panicked while running a query (stage {ev.get('stage')}): {ev.get('msg')}"
     if ev.get("ev") == "error":
         return "error", f"tantivy returned an error for a well-formed case ({ev.get('where')}): {ev.get('msg')}"
     if why.startswith("explain: boosted explain differs from score"):
         return "F17", F17_TEXT
     if why.startswith("topdocs: score differs from the collector's (top-level dismax)"):
-        return "dismax-topdocs", DISMAX_TEXT
+        return "F19", DISMAX_TEXT
     return "why:" + why, f"trace rejected by {MODULE}: {why or 'event has no explanation'}"
 
 
@@ -161,10 +168,11 @@ def account(ctx, case, stats):
         stats["segmentation_compared"] += len(hits) if not reset["dels"] else 0
 
 
-def validate(ctx, events, label, cfg=CFG, stats=None, max_rounds=10):
+def validate(ctx, events, label, cfg=None, stats=None, max_rounds=10):
     """TLC judges the concatenated trace.  On a rejection the unexplained event is reported (once per class)
     and removed - query events are independent of each other - or, for any other event, its whole case; then
     the rest is validated again.  Returns the classes seen."""
+    cfg = cfg or DEFAULT_CFG
     events = norm_events(events)
     header, cases = split_cases(events)
     seen = {}
@@ -322,7 +330,7 @@ def replay_generated(ctx, stats):
         cp = ctx.path(f"gen_cases.{j}.ndjson")
         vlib.write_ndjson(cp, cases[j:j + chunk])
         tp = ctx.path(f"gen_trace.{j}.ndjson")
-        vlib.run_bin("bm25_driver", ["replay", "--in", cp, "--out", tp, "--explain", "safe", "--avoid", DEFAULT_AVOID], timeout=600)
+        vlib.run_bin("bm25_driver", ["replay", "--in", cp, "--out", tp, "--explain", "all", "--avoid", DEFAULT_AVOID or "none"], timeout=600)
         ev = vlib.read_ndjson(tp)
         before = ctx.cov["traces_validated_against_impl"]
         validate(ctx, ev, f"gen{j}", stats=stats)
@@ -339,7 +347,7 @@ def replay_generated(ctx, stats):
 # ---------------------------------------------------------------------------------------------
 def random_cases(ctx, runs, seed, stats, label="rand", extra=None):
     tp = ctx.path(f"{label}_trace.ndjson")
-    vlib.run_bin("bm25_driver", ["random", "--seed", seed, "--runs", runs, "--out", tp, "--explain", "safe", "--avoid", DEFAULT_AVOID] + (extra or []),
+    vlib.run_bin("bm25_driver", ["random", "--seed", seed, "--runs", runs, "--out", tp, "--explain", "all", "--avoid", DEFAULT_AVOID or "none"] + (extra or []),
                  timeout=600)
     ev = vlib.read_ndjson(tp)
     before = ctx.cov["traces_validated_against_impl"]
@@ -364,37 +372,55 @@ KF_DOCS = [{"toks": ["a"], "pad": 0}, {"toks": ["a", "b"], "pad": 0}, {"toks": [
            {"toks": ["b", "c"], "pad": 0}, {"toks": ["a", "c", "a"], "pad": 100}]
 
 
-def kf_case(tag, queries, explain, avoid):
+def kf_case(tag, queries):
     return {"tag": tag, "filler": "z", "vocab": ["a", "b", "c"], "docs": KF_DOCS, "cuts": [3, 2, 3], "dels": [],
-            "queries": queries, "ks": [1, 3, 1000], "explain": explain, "avoid": avoid}
+            "queries": queries, "ks": [1, 3, 1000], "explain": "all", "avoid": "none"}
 
 
-def known_finding_runs(ctx):
-    """each recorded finding is reproduced by a small dedicated run; what no longer reproduces is listed"""
-    runs = {
-        # F17: boosted single clauses, explain demanded bit-exact (strict configuration of the judge)
-        "F17": (kf_case("kf-F17", [{"k": "boost", "b": b, "q": T("a")} for b in (1.5, 3.7, 0.333)]
-                        + [{"k": "boost", "b": 0.1, "q": P("a", "b")}], "all", ""), CFG_STRICT),
-        # top-level dis-max over term queries: TopDocs vs collector
-        "dismax-topdocs": (kf_case("kf-dismax", [{"k": "dismax", "tie": 0.3, "qs": [T("a"), T("b")]}], "all", ""), CFG),
-        # explain descends into a non-matching phrase clause whose first match is a later document
-        "explain-seek": (kf_case("kf-explain", [{"k": "bool", "cl": [{"o": "must", "q": T("a")}, {"o": "should", "q": P("c", "a")}]}], "all", ""), CFG),
-        # must-not phrase
-        "notphrase": (kf_case("kf-notphrase", [{"k": "bool", "cl": [{"o": "should", "q": T("a")}, {"o": "mustnot", "q": P("c", "a")}]}], "none", ""), CFG),
+def finding_cases():
+    """one small fixed case per finding: while the finding is open it is the dedicated reproduction run, once it is
+    fixed it is a regression case of the default run (a reverted fix is detected deterministically)"""
+    return {
+        # boosted single clauses; explain demanded bit-exact (strict configuration of the judge)
+        "F17": (kf_case("finding-F17", [{"k": "boost", "b": b, "q": T("a")} for b in (1.5, 3.7, 0.333)]
+                        + [{"k": "boost", "b": 0.1, "q": P("a", "b")},
+                           {"k": "boost", "b": 2.0, "q": {"k": "boost", "b": 0.333, "q": T("b")}}]), CFG_STRICT),
+        # top-level dis-max whose disjunct scorers are term scorers: TopDocs vs collector / explain
+        "F19": (kf_case("finding-F19", [{"k": "dismax", "tie": 0.3, "qs": [T("a"), T("b")]},
+                                        {"k": "dismax", "tie": 0.7, "qs": [{"k": "boost", "b": 1.5, "q": T("a")}, T("b"), T("c")]},
+                                        {"k": "dismax", "tie": 0.0, "qs": [{"k": "bool", "cl": [{"o": "must", "q": T("b")}]}, T("a"), P("c", "a")]}]),
+                DEFAULT_CFG),
     }
+
+
+def known_finding_runs(ctx, stats):
     reproduced = {}
-    for key, (case, cfg) in runs.items():
-        cp = ctx.path(f"kf_{key}.cases.ndjson")
+    regress = []
+    for fid, (case, cfg) in finding_cases().items():
+        if fid in FIXED:
+            regress.append(case)
+            continue
+        cp = ctx.path(f"kf_{fid}.cases.ndjson")
         vlib.write_ndjson(cp, [case])
-        tp = ctx.path(f"kf_{key}.trace.ndjson")
+        tp = ctx.path(f"kf_{fid}.trace.ndjson")
         vlib.run_bin("bm25_driver", ["replay", "--in", cp, "--out", tp], timeout=120)
-        seen = validate(ctx, vlib.read_ndjson(tp), f"kf_{key}", cfg=cfg, max_rounds=1)
-        reproduced[key] = bool(seen.get(key))
+        seen = validate(ctx, vlib.read_ndjson(tp), f"kf_{fid}", cfg=cfg, max_rounds=1)
+        reproduced[fid] = bool(seen.get(fid))
         for other in seen:
-            if other != key:
-                log(f"[kf] {key}: additionally rejected as {other}")
+            if other != fid:
+                log(f"[kf] {fid}: additionally rejected as {other}")
+    if regress:
+        # repaired findings: their cases are ordinary cases of the default run (strict judge if F17 is repaired)
+        cp = ctx.path("regress.cases.ndjson")
+        vlib.write_ndjson(cp, regress)
+        tp = ctx.path("regress.trace.ndjson")
+        vlib.run_bin("bm25_driver", ["replay", "--in", cp, "--out", tp], timeout=120)
+        before = ctx.cov["traces_validated_against_impl"]
+        validate(ctx, vlib.read_ndjson(tp), "regress", stats=stats)
+        log(f"[regress] {len(regress)} regression cases of repaired findings, {ctx.cov['traces_validated_against_impl'] - before} accepted")
+    ctx.cov["findings_fixed"] = sorted(FIXED)
     ctx.cov["finding_reproduction"] = reproduced
-    log(f"[kf] dedicated finding runs: {reproduced}")
+    log(f"[kf] open findings reproduced: {reproduced}; treated as fixed: {sorted(FIXED)}")
 
 
 # ---------------------------------------------------------------------------------------------
@@ -472,7 +498,7 @@ def binding_selftest(ctx, events):
     results = {}
     p0 = ctx.path("selftest_base.ndjson")
     vlib.write_ndjson(p0, base)
-    r0 = vlib.run_tlc(MODULE, CFG, workers=1, timeout=120, trace=p0, deque=True, heap="2g")
+    r0 = vlib.run_tlc(MODULE, DEFAULT_CFG, workers=1, timeout=120, trace=p0, deque=True, heap="2g")
     if not r0.ok:
         if ctx.violations:
             ctx.cov["binding_selftest"] = {"skipped": "the base trace contains a reported violation"}
@@ -486,7 +512,7 @@ def binding_selftest(ctx, events):
         mut(tr)
         p = ctx.path(f"selftest_{name}.ndjson")
         vlib.write_ndjson(p, tr)
-        r = vlib.run_tlc(MODULE, CFG, workers=1, timeout=120, trace=p, deque=True, heap="2g")
+        r = vlib.run_tlc(MODULE, DEFAULT_CFG, workers=1, timeout=120, trace=p, deque=True, heap="2g")
         results[name] = "rejected" if (not r.ok and rejected_line(r) is not None) else "ACCEPTED"
     ctx.cov["binding_selftest"] = results
     bad = [k for k, v in results.items() if v != "rejected"]
@@ -515,9 +541,9 @@ def run(ctx):
         "several scoring clauses: scores are compared within Tol(term) = 4*(clauses+boosts) ulps (x4 under a dis-max), the property's "
         "'up to floating-point rounding of the sum'",
         "the harness maps a hit to its corpus document through the fast field `id`; tf / positions / field-norm ids are read from the segment readers",
-        "default runs steer around recorded findings: no TopDocs for a top-level dis-max over term queries, no explain() for queries where it "
-        "descends into possibly non-matching non-term clauses, no phrase under must-not; boosted explain is compared within the rounding bound "
-        "(bit-exact only in the dedicated F17 run)",
+        "while F17 / F19 are open the default runs steer around them: boosted explain is compared within the rounding bound (bit-exact only in "
+        "the dedicated F17 run) and a top-level dis-max over term queries is not sent through TopDocs; once known_findings.json lists them as "
+        "fixed (or C12_ASSUME_FIXED) the steering is off, the strict judge is used everywhere and their cases are regression cases",
     ]
     stats = new_stats()
     model_checking(ctx)
@@ -526,7 +552,7 @@ def run(ctx):
     if not ctx.quick:
         random_cases(ctx, 600, ctx.seed + 1000, stats, label="rand2")
         random_cases(ctx, 80, ctx.seed + 2000, stats, label="rand_big", extra=["--bigpads"])
-    known_finding_runs(ctx)
+    known_finding_runs(ctx, stats)
     binding_selftest(ctx, ev)
     stats["fieldnorm_ids_covered"] = len(stats["fnids"])
     stats["fnids"] = sorted(stats["fnids"])
@@ -551,4 +577,4 @@ def replay(ctx, path):
     """re-validate stored traces (the verdict is a property of the trace); *.strict.ndjson use the strict judge"""
     files = sorted(os.path.join(path, f) for f in os.listdir(path) if f.endswith(".ndjson")) if os.path.isdir(path) else [path]
     for f in files:
-        validate(ctx, vlib.read_ndjson(f), "replay-" + os.path.basename(f)[:40], cfg=CFG_STRICT if ".strict." in os.path.basename(f) else CFG)
+        validate(ctx, vlib.read_ndjson(f), "replay-" + os.path.basename(f)[:40], cfg=CFG_STRICT if ".strict." in os.path.basename(f) else None)
